@@ -58,6 +58,12 @@ def main():
         if prop == "C09":
             import props_typed
             return props_typed.run_c09(prop, tier)
+        if prop == "C13":
+            import props_embed
+            return props_embed.run(prop, tier)
+        if prop == "C06":
+            import props_sugar
+            return props_sugar.run(prop, tier)
         print("unknown property", prop)
         return 2
     except (common.MachineryError, tlcrun.TLCError) as e:
